@@ -471,7 +471,9 @@ func checkBoot(c *eng.Ctx, b bootLit, res ckks.Parameters, p bootstrapping.Param
 		for i := 0; okp && i < len(P); i++ {
 			okp = halfBitWindow(P[i], 61)
 		}
-		c.Check(okp, entry+"wrong-default-P", func() string { return fmt.Sprintf("P=%v, documented default: %d primes of 61 bits for %d Qi", P, k, len(Q)) })
+		c.Check(okp, entry+"wrong-default-P", func() string {
+			return fmt.Sprintf("P=%v, documented default: %d primes of 61 bits for %d Qi", P, k, len(Q))
+		})
 	}
 	// bookkeeping levels
 	c.Check(p.SlotsToCoeffsParameters.LevelQ == len(res.Q())-1+nS2C+reserved && p.Mod1ParametersLiteral.LevelQ == p.SlotsToCoeffsParameters.LevelQ+depth &&
